@@ -96,7 +96,11 @@ class DBusClientConnection (txdbus.protocol.BasicDBusProtocol):
         """
         Called when the transport loses connection to the bus
         """
-        if self.busName is None:
+        if self.busName is None and not self._authenticated:
+            # lost before authentication completed: whoever waits for
+            # this connection must be told (later losses reach them
+            # through the pending Hello call below)
+            self.factory._failed(reason)
             return
 
         for cb in self._dcCallbacks:
